@@ -11,6 +11,11 @@ open FFS FFS.Model.FsWallet
 /-- the regenerated guard facts: negative extension match returns; derived address compared before caching -/
 theorem guards : Gen.FsWalletFacts.extMismatchReturns = true ∧ Gen.FsWalletFacts.addressChecked = true := by decide
 
+/-- **Regenerated tie for "directories are never accounts".** The naming rule itself (`matchFilename`) rejects a directory
+    before it looks at the name, and every file that reaches `notifyNewFiles` — from a `Refresh` scan or from the file
+    listener — goes through that rule; the model applies the rule to files only (`accounts_exact`). -/
+theorem dir_guard : Gen.FsWalletFacts.dirsNeverMatch = true ∧ Gen.FsWalletFacts.notifyAppliesRule = true := by decide
+
 /-- every cached wallet file's key derives the address it is cached under -/
 def CacheInv (derive : Bytes → Addr) (st : State) : Prop :=
   ∀ a key, (a, key) ∈ st.cache → derive key = a
